@@ -41,6 +41,7 @@ func (p pathEnd) Error() string { return p.kind + ": " + p.msg + " @" + p.pos }
 
 type decision struct {
 	isVal  bool
+	isChoice bool
 	choice uint64
 	alts   []uint64
 	tried  []uint64
@@ -371,6 +372,30 @@ func (e *Engine) concretize(t *Term) uint64 {
 	return v
 }
 
+// chooseAmong forks over the values 0..n-1 of a fresh input variable without solver queries.
+func (e *Engine) chooseAmong(x *Term, n int) uint64 {
+	if n <= 0 {
+		e.end("prune", "empty choice")
+	}
+	if e.replaying() {
+		d := &e.trace[e.pos]
+		e.pos++
+		if !d.isVal || d.term != x {
+			panic("nondeterministic replay: choice mismatch")
+		}
+		e.addPC(e.ts.Eq(x, e.ts.Const(x.W, d.choice)))
+		return d.choice
+	}
+	d := decision{isVal: true, isChoice: true, choice: 0, pcLen: len(e.pc), term: x}
+	for i := 1; i < n; i++ {
+		d.alts = append(d.alts, uint64(i))
+	}
+	e.trace = append(e.trace, d)
+	e.pos++
+	e.addPC(e.ts.Eq(x, e.ts.Const(x.W, 0)))
+	return 0
+}
+
 func termKeyName(t *Term) string {
 	if t.Op == OpVar {
 		return t.Name
@@ -394,8 +419,13 @@ func (e *Engine) backtrack() bool {
 			e.solver.Pop(n)
 			e.solverPC = e.solverPC[:d.pcLen]
 		}
-		if !d.isVal {
+		if !d.isVal || d.isChoice {
 			if len(d.alts) > 0 {
+				if d.isChoice {
+					d.choice = d.alts[0]
+					d.alts = d.alts[1:]
+					return true
+				}
 				d.choice = d.alts[0]
 				d.alts = nil
 				return true
@@ -464,6 +494,15 @@ func (e *Engine) modelToAssignment(m map[string]uint64) map[string][]uint64 {
 
 func (e *Engine) recordViolation(kind, msg string, m map[string]uint64) {
 	v := Violation{Harness: e.res.Harness, Kind: kind, Msg: msg, Pos: e.curPos(), Model: e.modelToAssignment(m), Stack: e.stackStrings()}
+	if os.Getenv("VERIF_DEBUGPC") != "" {
+		fmt.Fprintf(os.Stderr, "--- violation %s %s: pc:\n", kind, msg)
+		for i, t := range e.pc {
+			fmt.Fprintf(os.Stderr, "  pc[%d] = %s\n", i, t.str(6))
+		}
+		for i, d := range e.trace {
+			fmt.Fprintf(os.Stderr, "  dec[%d] isVal=%v choice=%d tried=%v pcLen=%d term=%s\n", i, d.isVal, d.choice, d.tried, d.pcLen, d.term.str(3))
+		}
+	}
 	// dedupe by (kind,msg,pos)
 	for _, o := range e.res.Violations {
 		if o.Kind == v.Kind && o.Msg == v.Msg && o.Pos == v.Pos {
